@@ -30,10 +30,12 @@ MeasuredOK(e) ==
 InDomain(e) ==
     /\ ValidCfg(e.cfg)
     /\ e.dtype \in Dtypes
+    /\ e.pow2 \in Pow2s /\ (e.pow2 # 0 => e.dtype = "float64")
+    /\ (IOEnv.C09_KNOWN_BAD = "include" \/ ~KnownBadCombination(e.svd, e.dtype, e.pow2))   \* ./check C09 --opt known_bad=include
     /\ (e.dtype \in {"int64", "int32"} => e.ten.op = "matching" \/ e.ten.fam \in IntegerFams)
     /\ ValidRankSpec(e.cfg, e.rspec, e.frac) /\ e.via \in Vias
     /\ (e.via = "refit" => /\ Len(e.pre) = Len(e.cfg.shape)
-                            /\ \A k \in 1..Len(e.pre) : e.pre[k] \in 1..6)       \* shape of the tensor fitted first
+                            /\ \A k \in 1..Len(e.pre) : e.pre[k] \in 1..16)       \* shape of the tensor fitted first
     /\ e.svd \in Svds /\ e.iters \in Iters \cup {0} /\ (e.cfg.op # "tucker" => e.iters = 0)
     /\ IF e.ten.op = "matching"
        THEN /\ ValidMatching(e.ten) /\ e.ten.shape = e.cfg.shape /\ e.data = DataOf(e.ten)
@@ -68,7 +70,8 @@ Verdict(e) ==
               IF Raises(c) \/ ExpRanks(c) # e.out.ranks THEN "Ranks"     \* boundary conditions, realisable
               ELSE Judge(e, c)
     ELSE IF e.out.raised # Raises(e.cfg) THEN "Outcome"
-    ELSE IF e.out.raised /\ e.out.exc # "ValueError" THEN "Outcome"
+    \* the documented error: a ValueError that is about the rank (not, e.g., a reshape failure further down)
+    ELSE IF e.out.raised /\ (e.out.exc # "ValueError" \/ ~e.out.about_rank) THEN "Outcome"
     ELSE IF e.out.raised THEN "ok"
     ELSE IF e.out.ranks # ExpRanks(e.cfg) THEN "Ranks"
     ELSE Judge(e, e.cfg)
